@@ -42,6 +42,9 @@ struct Sys {
     coll: Option<Arc<dyn Collector>>,
     reg: Registry,
     locals: Vec<Arc<Mutex<LocalHistogram>>>,
+    /// +1.0, or -1.0 for programs whose observations are all negative (-(2^i)); sums are multiplied by it again when read,
+    /// so that the decoding below is the same
+    sign: f64,
 }
 
 fn snap_of(fams: &[prometheus::proto::MetricFamily]) -> HRes {
@@ -60,9 +63,16 @@ fn snap_of(fams: &[prometheus::proto::MetricFamily]) -> HRes {
 
 impl Sys {
     fn exec(&self, thread: usize, op: &HOpK) -> HRes {
+        match self.exec_raw(thread, op) {
+            HRes::Snap { count, sum, buckets } => HRes::Snap { count, sum: sum * self.sign, buckets },
+            HRes::Sum(s) => HRes::Sum(s * self.sign),
+            r => r,
+        }
+    }
+    fn exec_raw(&self, thread: usize, op: &HOpK) -> HRes {
         match op {
-            HOpK::Observe(b) => self.h.observe((1u64 << b) as f64),
-            HOpK::LocalObserve(b) => self.locals[thread].lock().unwrap().observe((1u64 << b) as f64),
+            HOpK::Observe(b) => self.h.observe(self.sign * (1u64 << b) as f64),
+            HOpK::LocalObserve(b) => self.locals[thread].lock().unwrap().observe(self.sign * (1u64 << b) as f64),
             HOpK::LocalFlush => self.locals[thread].lock().unwrap().flush(),
             HOpK::Collect(0) => {
                 let m = self.h.metric();
@@ -108,6 +118,7 @@ struct Program {
     via_vec: bool,
     sequential: bool,
     isolation: bool,
+    negative: bool,
 }
 
 fn gen_program(src: &mut Src, profile: Profile) -> Program {
@@ -199,7 +210,17 @@ fn gen_program(src: &mut Src, profile: Profile) -> Program {
         }
     }
     bounds.sort_by(|a, b| a.partial_cmp(b).unwrap());
-    Program { threads, bounds, via_vec: src.chance(80), sequential, isolation }
+    let via_vec = src.chance(80);
+    // a quarter of the programs observe negative numbers only (the running sum is negative at every collection)
+    let negative = src.chance(64);
+    if negative {
+        // bounds on both sides of the observations
+        let neg: Vec<f64> = bounds.iter().take(2).map(|b| -*b).collect();
+        bounds.extend(neg);
+        bounds.sort_by(|a, b| a.partial_cmp(b).unwrap());
+        bounds.dedup();
+    }
+    Program { threads, bounds, via_vec, sequential, isolation, negative }
 }
 
 /// Isolation schedule (C03's termination clause): walk until a chosen collect has been invoked
@@ -296,7 +317,11 @@ pub fn run_hist(src: &mut Src, rep: &mut Report, profile: Profile) -> Verdict {
     }
     let bounds: Vec<f64> = if prog.bounds.is_empty() { crate::props::c08::DEFAULT_BUCKETS.to_vec() } else { prog.bounds.clone() };
     let locals = if single_handle { vec![] } else { (0..nthreads).map(|_| Arc::new(Mutex::new(h.local()))).collect() };
-    let sys = Sys { h, coll, reg, locals };
+    let sign = if prog.negative { -1.0 } else { 1.0 };
+    if prog.negative {
+        rep.class("negative-observations");
+    }
+    let sys = Sys { h, coll, reg, locals, sign };
     let total: usize = prog.threads.iter().map(|p| p.len()).sum();
     let threads: Vec<Vec<OpFn<HRes>>> = prog
         .threads
@@ -493,7 +518,7 @@ pub fn run_hist(src: &mut Src, rep: &mut Report, profile: Profile) -> Verdict {
         if *count != n {
             return fail("count-differs-from-sum", format!("{}: sample count {} but its sum describes {} observations ;; {}", who, count, n, hist_desc()));
         }
-        let want: Vec<u64> = bounds.iter().map(|b| (0..50).filter(|i| s & (1u64 << i) != 0 && ((1u64 << i) as f64) <= *b).count() as u64).collect();
+        let want: Vec<u64> = bounds.iter().map(|b| (0..50).filter(|i| s & (1u64 << i) != 0 && sign * ((1u64 << i) as f64) <= *b).count() as u64).collect();
         if *buckets != want {
             return fail("buckets-differ-from-sum", format!("{}: cumulative buckets {:?} but the set it describes gives {:?} for bounds {:?} ;; {}", who, buckets, want, bounds, hist_desc()));
         }
@@ -616,7 +641,7 @@ impl Property for C02 {
         "C02"
     }
     fn rule(&self) -> &'static str {
-        "case = one Histogram (direct or HistogramVec child, registered) with 0-4 bucket bounds among the powers of two in use (4% of cases: 33-40 further bounds); 2-4 \
+        "case = one Histogram (direct or HistogramVec child, registered) with 0-4 bucket bounds among the powers of two in use (4% of cases: 33-40 further bounds; a quarter of the programs observe -(2^i) instead of 2^i, with bounds on both sides of zero); 2-4 \
          threads: 1-2 collectors (Metric::metric / Collector::collect / Registry::gather, up to 6 collections) and observers \
          (observe(2^i) with a unique bit per observation, local observe + flush batches), 1-5 operations each; schedule = walk / PCT / \
          window (pause a thread before its k-th atomic step while another completes whole operations) with up to 3 injected spurious \
